@@ -341,9 +341,9 @@ Definition fixed_inv (c : cfg) (w : world) : Prop :=
   forall p r, nth_error (procs w) p = Some r -> Jfix c p (sh w) r.
 
 Lemma Jfix_dead c p s r :
-  Jfix c p s r -> Jfix c p (release p (fd r) s) (set_fd (goto r Dead) None).
+  forall h, Jfix c p s r -> Jfix c p (release h (fd r) s) (set_fd (goto r Dead) None).
 Proof.
-  intros (J1 & J3 & J4 & J5). unfold Jfix. simp_sh. rewrite files_release.
+  intros h (J1 & J3 & J4 & J5). unfold Jfix. simp_sh. rewrite files_release.
   cbn [fixed_pc holding tmp_ok pop_ok]. repeat split; auto.
 Qed.
 
@@ -455,11 +455,12 @@ Lemma lframe_create p s : lockfile s = None -> lframe p s (create_lockfile s).
 Proof. intro H. split; simp_sh; auto. intros i Hi. congruence. Qed.
 
 Lemma pstep_lock c p s r s' r' :
-  unlink_on_release c = false -> fixed_pc (pc_of r) = true -> Jlock p s r ->
+  unlink_on_release c = false -> per_process_locks c = false ->
+  fixed_pc (pc_of r) = true -> Jlock p s r ->
   pstep c p s r = (s', r') -> Jlock p s' r' /\ lframe p s s'.
 Proof.
-  intros Hu Hf [A B] H.
-  unfold pstep, acquire_step, opened, lock_ino, leave, after_chunk, lookup_fixed, remember, within_for, memo_written in H. rewrite Hu in H.
+  intros Hu Hpp Hf [A B] H.
+  unfold pstep, acquire_step, opened, lock_ino, leave, after_chunk, lookup_fixed, remember, within_for, memo_written in H. rewrite Hu in H. unfold hid in H. rewrite Hpp in H. cbn [andb] in H.
   destruct (pc_of r) eqn:Epc; try discriminate Hf; cbn [holding] in A.
   all: case_step H; simp_sh; rewrite ?Epc.
   all: split; [split|].
@@ -482,12 +483,13 @@ Definition lock_inv (w : world) : Prop :=
   forall p r, nth_error (procs w) p = Some r -> Jlock p (sh w) r.
 
 Lemma lock_inv_step c w e :
-  unlink_on_release c = false -> fixed_inv c w -> lock_inv w -> lock_inv (step c w e).
+  unlink_on_release c = false -> per_process_locks c = false ->
+  fixed_inv c w -> lock_inv w -> lock_inv (step c w e).
 Proof.
-  intros Hu (_ & _ & HJ) HL. destruct e as [p|p|d]; simpl; auto.
+  intros Hu Hpp (_ & _ & HJ) HL. destruct e as [p|p|d]; simpl; auto.
   - destruct (nth_error (procs w) p) as [r|] eqn:E; auto.
     destruct (pstep c p (sh w) r) as [s' r'] eqn:Ep.
-    destruct (pstep_lock _ _ _ _ _ _ Hu (proj1 (HJ _ _ E)) (HL _ _ E) Ep) as [HL' Hfr].
+    destruct (pstep_lock _ _ _ _ _ _ Hu Hpp (proj1 (HJ _ _ E)) (HL _ _ E) Ep) as [HL' Hfr].
     intros q rq Hq. simpl in *. rewrite nth_error_upd in Hq.
     destruct (Nat.eqb p q) eqn:Epq.
     + apply Nat.eqb_eq in Epq. subst q. rewrite E in Hq. inversion Hq. subst. exact HL'.
@@ -500,13 +502,15 @@ Proof.
     + apply Nat.eqb_eq in Epq. subst q. rewrite E in Hq. inversion Hq. subst.
       split; simpl; intros; discriminate.
     + apply Nat.eqb_neq in Epq. assert (Hne : q <> p) by congruence.
+      unfold hid. rewrite Hpp.
       eapply Jlock_stable; [exact Hne | apply lframe_release | apply HL; exact Hq].
 Qed.
 
 Lemma lock_inv_run c evs : forall w,
-  unlink_on_release c = false -> fixed_inv c w -> lock_inv w -> lock_inv (run c w evs).
+  unlink_on_release c = false -> per_process_locks c = false ->
+  fixed_inv c w -> lock_inv w -> lock_inv (run c w evs).
 Proof.
-  induction evs as [|e evs IH]; intros w Hu HI HL; simpl; auto.
+  induction evs as [|e evs IH]; intros w Hu Hpp HI HL; simpl; auto.
   apply IH; auto; [apply fixed_inv_step | apply lock_inv_step]; auto.
 Qed.
 
@@ -522,13 +526,14 @@ Qed.
    both hold the advisory lock on the file they have open, every open descriptor refers to the file
    that currently carries the name, and a file has at most one lock holder. *)
 Lemma fixed_lock_exclusive c t ks evs p q rp rq :
-  unlink_on_release c = false -> cleanup_outside_lock c = false -> forallb is_fixed_kind ks = true ->
+  unlink_on_release c = false -> per_process_locks c = false -> cleanup_outside_lock c = false ->
+  forallb is_fixed_kind ks = true ->
   nth_error (procs (run c (init t ks) evs)) p = Some rp ->
   nth_error (procs (run c (init t ks) evs)) q = Some rq ->
   holding (pc_of rp) = true -> holding (pc_of rq) = true -> p = q.
 Proof.
-  intros Hu Hc Hk Hp Hq Hhp Hhq.
-  pose proof (lock_inv_run c evs _ Hu (fixed_inv_init c t ks Hc Hk) (lock_inv_init t ks)) as HL.
+  intros Hu Hpp Hc Hk Hp Hq Hhp Hhq.
+  pose proof (lock_inv_run c evs _ Hu Hpp (fixed_inv_init c t ks Hc Hk) (lock_inv_init t ks)) as HL.
   destruct (HL _ _ Hp) as [A B]. destruct (HL _ _ Hq) as [A' B'].
   destruct (A Hhp) as (i & Hfd & Hl). destruct (A' Hhq) as (j & Hfd' & Hl').
   pose proof (B _ Hfd) as H1. pose proof (B' _ Hfd') as H2. congruence.
@@ -665,6 +670,7 @@ Qed.
 (* repaired protocol: the last attempt on a lock file whose lock another process holds gives up
    with the cache error, takes nothing, changes no file and closes its descriptor *)
 Lemma fixed_timeout_gives_cache_error c w p r q :
+  per_process_locks c = false ->
   nth_error (procs w) p = Some r ->
   (pc_of r = FAcquire \/ pc_of r = XAcquire) ->
   lget (locks (sh w)) (lock_ino (sh w) r) = Some q -> max_tries c <= S (tries r) ->
@@ -673,10 +679,10 @@ Lemma fixed_timeout_gives_cache_error c w p r q :
              locks (sh (step c w (Run p))) = locks (sh w) /\
              files_of (sh (step c w (Run p))) = files_of (sh w).
 Proof.
-  intros Hr Hpc Hfl Ht. apply Nat.ltb_ge in Ht.
+  intros Hpp Hr Hpc Hfl Ht. apply Nat.ltb_ge in Ht.
   exists (snd (pstep c p (sh w) r)). split; [apply proc_at_step_run; exact Hr|].
   rewrite (step_run_at _ _ _ _ Hr). simpl.
-  unfold pstep, acquire_step, opened.
+  unfold pstep, acquire_step, opened. rewrite Hpp. cbn [andb].
   destruct Hpc as [-> | ->]; rewrite Hfl, Ht; simpl; repeat split; auto;
     destruct (fd r); auto; destruct (lockfile (sh w)); auto.
 Qed.
@@ -688,7 +694,7 @@ Lemma fixed_free_lock_acquired c w p r :
   lget (locks (sh w)) (lock_ino (sh w) r) = None ->
   exists r', proc_at (step c w (Run p)) p = Some r' /\ holding (pc_of r') = true /\
              fd r' = Some (lock_ino (sh w) r) /\
-             lget (locks (sh (step c w (Run p)))) (lock_ino (sh w) r) = Some p.
+             lget (locks (sh (step c w (Run p)))) (lock_ino (sh w) r) = Some (hid c r p).
 Proof.
   intros Hr Hpc Hfl.
   exists (snd (pstep c p (sh w) r)). split; [apply proc_at_step_run; exact Hr|].
@@ -1027,9 +1033,9 @@ Lemma fixed_no_torn_stmt c ks :
 Proof. intros Hc Hk t evs f x. apply fixed_no_torn_visible; assumption. Qed.
 
 Lemma fixed_lock_stmt c ks :
-  unlink_on_release c = false -> cleanup_outside_lock c = false ->
+  unlink_on_release c = false -> per_process_locks c = false -> cleanup_outside_lock c = false ->
   forallb is_fixed_kind ks = true -> lock_exclusive_stmt c ks.
-Proof. intros Hu Hc Hk t evs p q rp rq. apply fixed_lock_exclusive; assumption. Qed.
+Proof. intros Hu Hpp Hc Hk t evs p q rp rq. apply fixed_lock_exclusive; assumption. Qed.
 
 Lemma fixed_load_stmt c ks :
   cleanup_outside_lock c = false -> forallb is_fixed_kind ks = true -> load_succeeds_stmt c ks.
@@ -1065,8 +1071,8 @@ Qed.
 
 (* ================================================= refuting witnesses === *)
 
-Definition c2 : cfg := mkCfg 2 2 18 3 false false false.   (* time unit: 100 s *)
-Definition c2u : cfg := mkCfg 2 2 18 3 true false false.   (* the same with "remove the lock file on release" *)
+Definition c2 : cfg := mkCfg 2 2 18 3 false false false false.   (* time unit: 100 s *)
+Definition c2u : cfg := mkCfg 2 2 18 3 true false false false.   (* the same with "remove the lock file on release" *)
 Definition t0 : nat := 50.
 
 (* F2: a process is killed inside the in-place copy of file 1; the next load of version 1
@@ -1201,7 +1207,7 @@ Qed.
    killed: both found the folder empty; P0 holds the lock and is between its temporary copy of file 0
    and the rename; P1 does its clean-up (outside the lock) and removes P0's in-flight temporary
    file; P0's os.replace raises FileNotFoundError, which escapes load_schema_version. *)
-Definition c2c : cfg := mkCfg 2 2 18 3 false true false.
+Definition c2c : cfg := mkCfg 2 2 18 3 false true false false.
 Definition ev_cleanup : list event := [Run 0; Run 1] ++ runs 0 6 ++ [Run 1] ++ runs 0 2.
 
 Lemma cleanup_witness :
@@ -1235,7 +1241,7 @@ Qed.
    (calls 0 and 2 are both its calls); more than the interval later another process refreshes at
    70; one time unit later process 7 tries again: its memo still says 50, it is NOT skipped and
    goes to the network although the shared stamp is one unit old. *)
-Definition c2m : cfg := mkCfg 2 2 18 3 false false true.
+Definition c2m : cfg := mkCfg 2 2 18 3 false false true false.
 Definition ev_memo : list event := runs 0 4 ++ [Tick 20] ++ runs 1 4 ++ [Tick 1] ++ runs 2 3.
 Definition ks_memo : list kind := [KRefreshOf 7; KRefreshFixed; KRefreshOf 7].
 
@@ -1251,6 +1257,47 @@ Lemma memo_contrast :
   stamp (sh w) = StampAt 70 /\ netreqs (sh w) = 2 /\ outcome_of w 2 = Some OSkipped /\
   exists r, nth_error (procs w) 2 = Some r /\ nreq r = 0 /\ cache_err r = true.
 Proof. vm_compute. repeat split; try reflexivity. eexists. repeat split; reflexivity. Qed.
+
+(* ANTI-PATTERN: the lock belongs to the OS process (POSIX record locks, fcntl.lockf) instead of the
+   open file (flock).  Contenders 0 and 2 are two threads (or a nested CacheLock) of OS process 7,
+   contender 1 is another process.  Nobody is killed.  A (0) holds; Q (1) has passed the threshold
+   test; B (2), in A's process, "acquires" at once: A and B are inside together.  B leaves: its
+   close drops the lock of the whole process; Q's first attempt succeeds while A is still inside. *)
+Definition c2p : cfg := mkCfg 2 2 18 3 false false false true.
+Definition ks_same : list kind := [KRefreshOf 7; KRefreshFixed; KRefreshOf 7].
+Definition ev_same_1 : list event := runs 0 2 ++ [Run 1] ++ runs 2 2.
+Definition ev_same_2 : list event := ev_same_1 ++ runs 2 2 ++ [Run 1].
+
+Lemma same_process_witness :
+  (let w := run c2p (init t0 ks_same) ev_same_1 in
+   exists ra rb, nth_error (procs w) 0 = Some ra /\ nth_error (procs w) 2 = Some rb /\
+                 holding (pc_of ra) = true /\ holding (pc_of rb) = true /\ tries rb = 0) /\
+  (let w := run c2p (init t0 ks_same) ev_same_2 in
+   exists ra rq, nth_error (procs w) 0 = Some ra /\ nth_error (procs w) 1 = Some rq /\
+                 holding (pc_of ra) = true /\ holding (pc_of rq) = true /\
+                 outcome_of w 2 = Some OSkipped).
+Proof.
+  split; vm_compute; eexists; eexists; repeat split; reflexivity.
+Qed.
+
+(* with locks that belong to the open file: B's three attempts fail, it gives up with the cache
+   error; Q's attempt fails as well, A stays alone inside *)
+Lemma same_process_contrast :
+  let w := run c2 (init t0 ks_same) (runs 0 2 ++ [Run 1] ++ runs 2 4 ++ [Run 1]) in
+  exists ra rq rb, nth_error (procs w) 0 = Some ra /\ nth_error (procs w) 1 = Some rq /\
+                   nth_error (procs w) 2 = Some rb /\
+                   holding (pc_of ra) = true /\ holding (pc_of rq) = false /\ tries rq = 1 /\
+                   pc_of rb = Done OSkipped /\ cache_err rb = true.
+Proof. vm_compute. eexists. eexists. eexists. repeat split; reflexivity. Qed.
+
+Lemma lock_exclusive_per_process_refuted :
+  exists c ks, forallb is_fixed_kind ks = true /\ per_process_locks c = true /\
+               ~ lock_exclusive_stmt c ks.
+Proof.
+  exists c2p, ks_same. split; [reflexivity|]. split; [reflexivity|]. intro H.
+  destruct same_process_witness as [(ra & rb & H0 & H2 & Hh0 & Hh2 & _) _].
+  specialize (H t0 ev_same_1 0 2 ra rb H0 H2 Hh0 Hh2). discriminate H.
+Qed.
 
 (* ---------------------------------------------------------- non-vacuity *)
 
